@@ -259,7 +259,11 @@ func (ci *ChunkInfo) getCidSort(rootCid, cid boson.Address) int {
 	if err != nil {
 		return 0
 	}
-	return pyramid.cids[cid.String()].sort
+	c, ok := pyramid.cids[cid.String()]
+	if !ok {
+		return -1
+	}
+	return c.sort
 }
 
 // func (cp *chunkPyramid) updateCidSort(rootCid, cid boson.Address, sort int) {
